@@ -7,8 +7,10 @@ mod listx;
 mod model;
 mod rng;
 mod runner;
+mod scen_conc;
 mod scen_life;
 mod scen_list;
+mod sendable;
 mod sched;
 mod shm;
 mod tracked;
